@@ -36,6 +36,66 @@ Example C12_nonvacuous :
 Proof. vm_compute. repeat split; reflexivity. Qed.
 
 (* ------------------------------------------------------------------------------------------
+   Tie to the source: the message-state methods of client.py this property rests on are translated from
+   the Python AST on every run (tools/py2v/msgstate.py -> Gen/GenMsgState.v) and proved equal to the
+   functions of the hand model (Session/MsgStateBridge.v).  A semantic change to one of these methods
+   changes the generated text and the corresponding theorem below stops compiling. *)
+From PahoV Require Import Base.Prelude Codec.Mid Session.Model Session.Lemmas Session.Inv
+  Session.MsgStateLib Gen.GenMsgState Session.MsgStateBridge.
+From PahoV Require Import Props.MsgStateTie.
+
+Theorem C12_tie_summaries :
+  gen_summaries_ok = true.
+Proof. exact tie_summaries. Qed.
+Print Assumptions C12_tie_summaries.
+
+Theorem C12_tie_store_writers :
+  gen_store_writers = store_writers_expected.
+Proof. exact tie_store_writers. Qed.
+Print Assumptions C12_tie_store_writers.
+
+Theorem C12_tie_reset_out :
+  forall c clean infl0 l,
+  Forall (fun m => qos_okb m = true) l ->
+  gen_reset_out (c_max c) clean l infl0 = (let (r, n) := reset_out_list c clean 0 l in (r, n, Ok tt)).
+Proof. exact tie_reset_out. Qed.
+Print Assumptions C12_tie_reset_out.
+
+Theorem C12_tie_update_inflight :
+  forall c cn tagof l infl calls,
+  Forall (fun m => qos_okb m = true) l ->
+  exists calls',
+    gen_update_inflight (c_max c) true l infl calls =
+      (fst (fst (update_inflight c cn infl l)), snd (fst (update_inflight c cn infl l)), calls', Ok MQTT_ERR_SUCCESS) /\
+    ext cn tagof calls calls' (snd (update_inflight c cn infl l)).
+Proof. exact tie_update_inflight. Qed.
+Print Assumptions C12_tie_update_inflight.
+
+Theorem C12_tie_handle_pubackcomp :
+  forall c s mid raises,
+  sock s = true -> Forall (fun m => qos_okb m = true) (out s) ->
+  let '(o, n, calls, r) := gen_handle_pubackcomp (c_max c) true mid (out s) (inflight s) [] in
+  r = Ok MQTT_ERR_SUCCESS /\
+  do_rx c s (IPuback mid) raises = (with_out s o n, Inp (IPuback mid) :: evs (conn s) (tag_in (out s)) calls) /\
+  do_rx c s (IPubcomp mid) raises = (with_out s o n, Inp (IPubcomp mid) :: evs (conn s) (tag_in (out s)) calls).
+Proof. exact tie_handle_pubackcomp. Qed.
+Print Assumptions C12_tie_handle_pubackcomp.
+
+Theorem C12_tie_publish_qos12 :
+  forall c s q blank tagof,
+  q = 1 \/ q = 2 ->
+  let mid := mid_next (last_mid s) in
+  let tag := ntag s in
+  let s1 := mkS (out s) (inm s) (inflight s) mid (sock s) (first s) (cack s) (conn s) (tag + 1) in
+  let '(o, n, calls, r) :=
+    gen_publish_qos12 (c_max c) (c_maxq c) (sock s) mid q tag blank (out s) (inflight s) [] in
+  exists rc, r = Ok rc /\
+    do_publish c s q = (with_out s1 o n, evs (conn s) tagof calls ++ [Ret tag mid q rc]) /\
+    forallb sent_waitb calls = true.
+Proof. exact tie_publish_qos12. Qed.
+Print Assumptions C12_tie_publish_qos12.
+
+(* ------------------------------------------------------------------------------------------
    The same property on the second-generation session model (coq/theories/Session2): the client's
    output queue and a transport that may refuse writes are modelled; events distinguish a packet
    HANDED to the connection from a packet WRITTEN; reconnect() drops what is still queued. *)
